@@ -32,16 +32,16 @@ const Mod = "ex.io/m.v"
 
 type G struct {
 	t     *rapid.T
-	pkgs  []string            // non-main package dirs
+	pkgs  []string // non-main package dirs
 	decl  map[string]*strings.Builder
 	uses  map[string]map[string]bool // pkg -> imported pkgs
 	main  strings.Builder
 	units []Unit
 }
 
-func (g *G) n(lo, hi int, label string) int { return rapid.IntRange(lo, hi).Draw(g.t, label) }
+func (g *G) n(lo, hi int, label string) int       { return rapid.IntRange(lo, hi).Draw(g.t, label) }
 func (g *G) pick(l []string, label string) string { return rapid.SampledFrom(l).Draw(g.t, label) }
-func (g *G) pkg(label string) string { return g.pkgs[g.n(0, len(g.pkgs)-1, label)] }
+func (g *G) pkg(label string) string              { return g.pkgs[g.n(0, len(g.pkgs)-1, label)] }
 
 // dep returns a package that p may import without creating a cycle: one that comes later in the
 // list (main may import any), or p itself when there is none.
@@ -398,6 +398,96 @@ func Id%[1]d[T any](v T) any { return v }
 `, u, g.q("main", a, fmt.Sprintf("F%d", u)), g.q("main", b, fmt.Sprintf("F%d", u))))
 		return "main"
 	}},
+	{"generic_composite_typearg_two_pkgs", true, func(g *G, u int) string {
+		// two packages with the same name instantiate generics of a third one with UNNAMED composite type
+		// arguments (struct, func and interface literals) that mention their own, equally named types
+		a, b, lib := "pa", "q.r/pa", "pb"
+		g.add(lib, fmt.Sprintf(`func Zero%[1]d[T any]() any { var z T; return z }
+
+func Pass%[1]d[T any](v T) T { w := v; return w }
+
+type Hold%[1]d[T any] struct {
+	V    T
+	Tail int
+}
+
+func (h Hold%[1]d[T]) Get() (T, int) { return h.V, h.Tail }
+`, u))
+		for i, p := range []string{a, b} {
+			n := []int{1, 5}[i]
+			g.add(p, fmt.Sprintf(`type Rec%[1]d struct{ A [%[2]d]int64 }
+
+func Use%[1]d() (bool, bool, int64, int, bool) {
+	_, ok1 := %[3]s[struct{ R Rec%[1]d }]().(struct{ R Rec%[1]d })
+	_, ok2 := %[3]s[func(Rec%[1]d) int]().(func(Rec%[1]d) int)
+	var lit struct{ R Rec%[1]d }
+	for i := range lit.R.A {
+		lit.R.A[i] = int64(10*%[2]d + i)
+	}
+	v := %[4]s(lit)
+	h := %[5]s[struct{ R Rec%[1]d }]{V: v, Tail: 7}
+	hv, tail := h.Get()
+	_, ok3 := %[3]s[*interface{ M(Rec%[1]d) }]().(*interface{ M(Rec%[1]d) })
+	return ok1, ok2, v.R.A[%[2]d-1] + hv.R.A[0], tail, ok3
+}
+`, u, n, g.q(p, lib, fmt.Sprintf("Zero%d", u)), g.q(p, lib, fmt.Sprintf("Pass%d", u)), g.q(p, lib, fmt.Sprintf("Hold%d", u))))
+		}
+		g.add("main", fmt.Sprintf(`func U%[1]d() {
+	a1, a2, a3, a4, a5 := %[2]s()
+	b1, b2, b3, b4, b5 := %[3]s()
+	println("#%[1]d", a1, a2, a3, a4, a5, b1, b2, b3, b4, b5)
+}
+`, u, g.q("main", a, fmt.Sprintf("Use%d", u)), g.q("main", b, fmt.Sprintf("Use%d", u))))
+		return "main"
+	}},
+	{"cross_package_dynamic_type_identity", true, func(g *G, u int) string {
+		// values of types without an exported name (unexported named types, struct literal types, pointers to
+		// them) are boxed in one package and inspected in another: one type, one identity
+		p := g.pkg("pkg")
+		g.add(p, fmt.Sprintf(`type level%[1]d int
+
+const (
+	Low%[1]d  level%[1]d = 1
+	High%[1]d level%[1]d = 3
+)
+
+type hidden%[1]d struct{ n int }
+
+func NewH%[1]d(n int) *hidden%[1]d { return &hidden%[1]d{n} }
+
+func Classify%[1]d(v any) int {
+	switch x := v.(type) {
+	case level%[1]d:
+		return 10 + int(x)
+	case *hidden%[1]d:
+		return 20 + x.n
+	case struct{ A, B int }:
+		return 30 + x.A + x.B
+	case []level%[1]d:
+		return 40 + len(x)
+	case func(level%[1]d) int:
+		return 50
+	}
+	return -1
+}
+
+func Same%[1]d(v any) bool { return v == any(High%[1]d) }
+
+func Hit%[1]d(m map[any]int) int { return m[High%[1]d] + m[struct{ A, B int }{1, 2}] }
+
+func Boxed%[1]d() any { return Low%[1]d }
+`, u))
+		g.add("main", fmt.Sprintf(`func U%[1]d() {
+	var v any = %[2]s
+	pair := struct{ A, B int }{1, 2}
+	m := map[any]int{%[2]s: 5, pair: 7}
+	_, isLevel := %[6]s().(interface{ comparableMarker() })
+	println("#%[1]d", %[3]s(v), %[3]s(%[4]s(4)), %[3]s(pair), %[3]s(nil), %[5]s(v), %[7]s(m), isLevel, %[6]s() == v, %[6]s() == any(%[8]s))
+}
+`, u, g.q("main", p, fmt.Sprintf("High%d", u)), g.q("main", p, fmt.Sprintf("Classify%d", u)), g.q("main", p, fmt.Sprintf("NewH%d", u)),
+			g.q("main", p, fmt.Sprintf("Same%d", u)), g.q("main", p, fmt.Sprintf("Boxed%d", u)), g.q("main", p, fmt.Sprintf("Hit%d", u)), g.q("main", p, fmt.Sprintf("Low%d", u))))
+		return "main"
+	}},
 	{"same_names_two_pkgs", true, func(g *G, u int) string {
 		// identical type, method, function and closure-holding variable names in pa and q.r/pa
 		for i, p := range []string{"pa", "q.r/pa"} {
@@ -452,6 +542,99 @@ func U%[1]d() {
 	println("#%[1]d", o.in.arr[0], o.sl[0], o.m["k"], x, c.in.arr[1], o.in.arr[1], arr[1][1], brr[1][1], arr[0][0], len(pa), cap(o.sl[:1]))
 }
 `, u, a))
+		return p
+	}},
+	{"copy_then_mutate_in_return", false, func(g *G, u int) string {
+		// a copy of a struct variable must keep its value although the original is written (directly, through a
+		// nested field, an array element of a field, or a pointer into it) and mutated by a pointer-receiver
+		// call in the same return statement
+		p := g.pkgOrMain()
+		seed := g.n(1, 9, "seed")
+		writes := []string{"o.id = 5", "o.in.n = 5", "o.cells[1] = 7", "o.in.arr[2] = 9", "q := &o.in; q.n = 6", "o.in = in%[1]d{n: 4}", "for i := range o.cells { o.cells[i] = i + 50 }"}
+		w1 := strings.ReplaceAll(writes[g.n(0, len(writes)-1, "write1")], "%[1]d", fmt.Sprint(u))
+		w2 := strings.ReplaceAll(writes[g.n(0, len(writes)-1, "write2")], "%[1]d", fmt.Sprint(u))
+		w2 = strings.ReplaceAll(w2, "q", "q2") // the pointer variable of the second write needs its own name
+		g.add(p, fmt.Sprintf(`type in%[1]d struct {
+	n   int
+	arr [3]int
+}
+type box%[1]d struct {
+	id    int
+	in    in%[1]d
+	cells [4]int
+}
+
+func (b *box%[1]d) bump() int { b.id += 100; b.in.n += 100; b.cells[1] += 100; b.in.arr[2] += 100; return b.id }
+
+func snap%[1]d(seed int) (box%[1]d, int) {
+	o := box%[1]d{id: seed}
+	x := o
+	%[3]s
+	return x, o.bump()
+}
+
+func snapTwo%[1]d(seed int) (int, box%[1]d, box%[1]d) {
+	o := box%[1]d{id: seed, cells: [4]int{1, 2, 3, 4}}
+	x := o
+	%[3]s
+	y := o
+	%[4]s
+	return o.bump(), x, y
+}
+
+func U%[1]d() {
+	a, r := snap%[1]d(%[2]d)
+	println("#%[1]d", a.id, a.in.n, a.cells[1], a.in.arr[2], r)
+	r2, b, c := snapTwo%[1]d(%[2]d)
+	println("#%[1]d", r2, b.id, b.in.n, b.cells[1], b.in.arr[2], c.id, c.in.n, c.cells[1], c.cells[3], c.in.arr[2])
+}
+`, u, seed, w1, w2))
+		return p
+	}},
+	{"large_value_snapshot", false, func(g *G, u int) string {
+		// a value loaded before a write keeps the old contents, whatever its size and however it is used later
+		// (converted to an interface, returned, passed on)
+		p := g.pkgOrMain()
+		n := []int{1, 4, 100, 511, 512, 513, 1024, 4096, 8192}[g.n(0, 8, "elems")]
+		g.add(p, fmt.Sprintf(`type big%[1]d struct{ a [%[2]d]int64 }
+
+var g%[1]d big%[1]d
+
+//go:noinline
+func snapAny%[1]d(p *big%[1]d) any {
+	old := *p
+	p.a[0] = 77
+	p.a[len(p.a)-1] = -77
+	return any(old)
+}
+
+//go:noinline
+func snapVal%[1]d(p *big%[1]d) big%[1]d {
+	old := *p
+	*p = big%[1]d{}
+	return old
+}
+
+//go:noinline
+func snapArr%[1]d(p *[%[2]d]int64) (r any) {
+	old := *p
+	p[0]++
+	r = old
+	return
+}
+
+func U%[1]d() {
+	g%[1]d.a[0], g%[1]d.a[%[2]d-1] = 11, 12
+	v := snapAny%[1]d(&g%[1]d).(big%[1]d)
+	println("#%[1]d", v.a[0], v.a[%[2]d-1], g%[1]d.a[0], g%[1]d.a[%[2]d-1])
+	g%[1]d.a[0] = 21
+	w := snapVal%[1]d(&g%[1]d)
+	println("#%[1]d", w.a[0], w.a[%[2]d-1], g%[1]d.a[0])
+	g%[1]d.a[0] = 31
+	z := snapArr%[1]d(&g%[1]d.a).([%[2]d]int64)
+	println("#%[1]d", z[0], g%[1]d.a[0])
+}
+`, u, n))
 		return p
 	}},
 	{"multi_assign", false, func(g *G, u int) string {
